@@ -11,6 +11,16 @@ from mc import spaces as S
 
 INF = float('inf')
 
+# Indicator thresholds in odl are deliberately shrunk by ~10*eps, so a point within `band` of
+# the boundary of a constraint set is *undecided*.  The oracle resolves it conservatively in
+# both directions: for the point returned by the library the band counts as feasible, for a
+# competitor point it counts as infeasible (so it can never serve as a witness).
+BAND_FEASIBLE = [False]
+
+
+def _band():
+    return 0.0 if BAND_FEASIBLE[0] else INF
+
 
 class Info(object):
     """Flat description of a space: size, weights, grouping for power spaces."""
@@ -81,7 +91,7 @@ def ref_ind_ball(info, p, band=1e-9):
     def f(z):
         v = nrm(z)
         if abs(v - 1) <= band:
-            return None        # undecided band around the boundary (library shrinks by ~eps)
+            return _band()
         return INF if v > 1 else 0.0
     return f
 
@@ -98,7 +108,7 @@ def ref_ind_group_ball(info, p, band=1e-9):
         g = info.groups(z)
         v = float(np.max(_pnorm(g, p, axis=0)))
         if abs(v - 1) <= band:
-            return None
+            return _band()
         return INF if v > 1 else 0.0
     return f
 
@@ -200,7 +210,7 @@ def ref_ind_nuclear(info, outer, sv, band=1e-9):
     def f(z):
         v = nrm(z)
         if abs(v - 1) <= band:
-            return None
+            return _band()
         return INF if v > 1 else 0.0
     return f
 
@@ -213,7 +223,7 @@ def ref_simplex(info, diameter, band=1e-9):
             return INF
         if np.all(z >= 0) and s <= 1e-13:
             return 0.0
-        return None
+        return _band()
     return f
 
 
@@ -224,7 +234,7 @@ def ref_sum_constraint(info, value, band=1e-9):
             return INF
         if s <= 1e-13:
             return 0.0
-        return None
+        return _band()
     return f
 
 
@@ -412,3 +422,84 @@ def info(name):
     if name not in _INFO:
         _INFO[name] = Info(name)
     return _INFO[name]
+
+
+# ------------------------------------------------------------------------------------------
+# reference convex conjugates (documented closed forms, pairing <x, y>_w = sum w x y)
+
+def _q(p):
+    p = float(p)
+    if p == 1:
+        return INF
+    if p == INF:
+        return 1.0
+    return p / (p - 1.0)
+
+
+def conj_ref(info, name, o):
+    """Reference for ``spec.build(...).convex_conj``; None if the library documents none."""
+    w = info.w
+    if name == 'L1Norm':
+        return ref_ind_ball(info, INF)
+    if name == 'L2Norm':
+        return ref_ind_ball(info, 2.0)
+    if name == 'L2NormSquared':
+        return lambda y: info.norm2(y) / 4.0
+    if name == 'LpNorm':
+        return ref_ind_ball(info, _q(o['p']))
+    if name == 'IndicatorLpUnitBall':
+        return ref_lpnorm(info, _q(o['p']))
+    if name == 'GroupL1Norm':
+        return ref_ind_group_ball(info, _q(o['p']))
+    if name == 'IndicatorGroupL1UnitBall':
+        return ref_group_l1(info, _q(o['p']))
+    if name == 'ConstantFunctional':
+        c = float(o['c'])
+        return lambda y: (-c if not np.any(y) else INF)
+    if name == 'ZeroFunctional':
+        return lambda y: (0.0 if not np.any(y) else INF)
+    if name == 'IndicatorZero':
+        c = float(o.get('c', 0))
+        return lambda y: -c
+    if name in ('IndicatorBox', 'IndicatorNonnegativity'):
+        if name == 'IndicatorNonnegativity':
+            lo, hi = 0.0, None
+        else:
+            lo, hi = o['lower'], o['upper']
+            if lo == 'elem':
+                lo = np.asarray(_LOW)[:info.n]
+            if hi == 'elem':
+                hi = np.asarray(_UPP)[:info.n]
+        lo = np.full(info.n, -INF) if lo is None else np.broadcast_to(np.asarray(lo, float),
+                                                                      (info.n,))
+        hi = np.full(info.n, INF) if hi is None else np.broadcast_to(np.asarray(hi, float),
+                                                                     (info.n,))
+
+        def f(y):
+            y = np.asarray(y, float)
+            with np.errstate(invalid='ignore'):
+                a = np.where(y == 0, 0.0, lo * y)
+                b = np.where(y == 0, 0.0, hi * y)
+            return float(np.sum(w * np.maximum(a, b)))
+        return f
+    if name == 'KullbackLeibler':
+        return ref_kl_cc(info, _prior(info, o))
+    if name == 'KullbackLeiblerConvexConj':
+        return ref_kl(info, _prior(info, o))
+    if name == 'KullbackLeiblerCrossEntropy':
+        return ref_kl_ce_cc(info, _prior(info, o))
+    if name == 'KullbackLeiblerCrossEntropyConvexConj':
+        return ref_kl_ce(info, _prior(info, o))
+    if name == 'Huber':
+        gam = o['gamma']
+        ball = (ref_ind_group_ball(info, 2.0) if info.ncomp is not None
+                else ref_ind_ball(info, INF))
+
+        def f(y):
+            return ball(y) + gam / 2.0 * info.norm2(y)
+        return f
+    if name == 'NuclearNorm':
+        return ref_ind_nuclear(info, _q(o['outer']), _q(o['sv']))
+    if name == 'IndicatorNuclearNormUnitBall':
+        return ref_nuclear(info, _q(o['outer']), _q(o['sv']))
+    return None
